@@ -73,7 +73,7 @@ func c03GenCfg(tier string, seed int64, idx int) (sim.GenCfg, int64) {
 	case 1:
 		g.Profile = gen.Profile{Txt: 1, DeleteBias: 45, MaxDepth: 1, Unicode: true, MaxText: 14}
 	case 2:
-		g.Profile = gen.Profile{Tree: 1, DeleteBias: 45, MaxDepth: 1}
+		g.Profile = gen.Profile{Tree: 1, DeleteBias: 45, MaxDepth: 1, TreeMixed: idx%2 == 1}
 	case 3:
 		g.Profile = gen.Profile{Obj: 3, Arr: 1, DeleteBias: 40, MaxDepth: 3, NewContainers: 30}
 	}
